@@ -18,7 +18,7 @@ LEVEL = "model_checking"
 def specs_for(ctx):
     rng = random.Random(ctx.seed + 16)
     specs = []
-    limits = [0.5, 0.55, 0.6, 0.65, 0.7, 0.75, 0.8, 0.85, 0.9, 0.95, 1.0]
+    limits = [0.5, 0.6, 0.7, 0.75, 0.8, 0.85, 0.88, 0.9, 0.92, 0.94, 0.96, 0.98, 1.0]
     n = ctx.pick(110, 2500)
     for i in range(n):
         r = rng.random()
@@ -32,8 +32,10 @@ def specs_for(ctx):
             ext = 1.0
         lim = rng.choice(["pi", "inf"] + [round(f * math.pi, 6) for f in limits] * 2)
         method = rng.choice(["default", "default", "default", "lsq"])
-        if method == "lsq" and tissue.get("ncells", 9) > 12:
-            tissue["ncells"] = 12
+        if method == "lsq" and tissue.get("ncells", 9) > 8:
+            tissue["ncells"] = rng.choice([6, 8]) if ctx.quick else rng.choice([6, 8, 12])
+        if method == "lsq" and tissue["kind"] == "catalogue":
+            tissue["base"] = rng.choice(["hexflower", "hex33"])
         solve = {"method": method, "allow_negatives": rng.random() < 0.7}
         if method == "lsq":
             solve["initial_condition"] = "ones" if rng.random() < 0.5 else "random"
@@ -45,6 +47,9 @@ def specs_for(ctx):
 
 
 def run(ctx):
+    import os
+    for b in ctx.pick(["hexflower"], ["hexflower", "hex33", "brick33"]):
+        ctx.mc("MC_AngleLimit", "MC_AngleLimit.cfg", env={"BASE_FILE": os.path.join(core.VERIF, "models", "catalogue", b + ".json")}, timeout=3000)
     specs = specs_for(ctx)
     verdicts, payloads = infer.run_specs(ctx, specs, prefixes=["C16", "BUILD", "SOLVE"])
     for cid, vjs in verdicts.items():
